@@ -1,4 +1,5 @@
 import ZnVerif.Properties.C05
+import ZnVerif.Properties.C05VarInput
 open ZnVerif.Properties.C05
 #print axioms parser_progress
 #print axioms epsilon_productions
@@ -11,3 +12,16 @@ open ZnVerif.Properties.C05
 #print axioms display_total
 #print axioms quoted_line_is_physical
 #print axioms caret_under_offender
+
+-- input-variable texts (C05VarInput)
+#print axioms ZnVerif.Properties.C05VarInput.varinput_compiles_cleanly
+#print axioms ZnVerif.Properties.C05VarInput.varinput_parse_step
+#print axioms ZnVerif.Properties.C05VarInput.exprinput_parse_step
+#print axioms ZnVerif.Properties.C05VarInput.varinput_shape_check
+#print axioms ZnVerif.Properties.C05VarInput.shape_check_fails_iff
+#print axioms ZnVerif.Properties.C05VarInput.varinput_all_or_nothing
+#print axioms ZnVerif.Properties.C05VarInput.varinput_binds_all_in_order
+#print axioms ZnVerif.Properties.C05VarInput.execVarInputTree_binds_all_in_order
+#print axioms ZnVerif.Properties.C05VarInput.varinput_target_check
+#print axioms ZnVerif.Properties.C05VarInput.exprinput_single_expression
+#print axioms ZnVerif.Properties.C05VarInput.exprinput_all_or_nothing
